@@ -591,12 +591,9 @@ import numpy as np
 from taskchain import Task
 from taskchain.data import H5Data
 
-FAIL_AFTER_BATCH = [None]      # the batch after whose rows reached the file - and before they are committed - run fails, once
-BATCHES = 3
+PLAN = [None]          # this attempt dies after that many further appends reached the file, before the commit (None: never)
+BATCHES = [[]]         # the batches of rows the task stores
 ALWAYS_POSITION = [True]
-
-def batch(b):
-    return np.array([[b, 1], [b, 2]], dtype="f4")
 
 class Rows(Task):               # appends batches of rows; the number of committed rows is kept beside the data file
     class Meta:
@@ -604,36 +601,56 @@ class Rows(Task):               # appends batches of rows; the number of committ
     def run(self) -> H5Data:
         d = self.get_data_object()
         progress = d.dir / "committed.txt"
-        committed = int(progress.read_text()) if progress.exists() else 0
+        done, committed = [int(x) for x in progress.read_text().split()] if progress.exists() else (0, 0)
         position = committed
-        for b in range(committed // 2, BATCHES):
+        for b in range(done, len(BATCHES[0])):
+            rows = np.array(BATCHES[0][b], dtype="f4").reshape(-1, 2)
             with d.data_file() as f:
                 ds = d.dataset("rows", f, maxshape=(None, 2))
-                d.append_data(ds, batch(b), dataset_len=position)
-            if not ALWAYS_POSITION[0]:
-                position = None     # only the first append of an attempt names the position, later ones go to the end
-            else:
-                position = committed + 2
-            if FAIL_AFTER_BATCH[0] == b:
-                FAIL_AFTER_BATCH[0] = None
+                d.append_data(ds, rows, dataset_len=position)
+            if PLAN[0] == 0:
                 raise RuntimeError("killed before the commit of batch %d" % b)
-            committed += 2
-            progress.write_text(str(committed))
+            if PLAN[0] is not None:
+                PLAN[0] -= 1
+            committed += len(rows)
+            progress.write_text("%d %d" % (b + 1, committed))
+            position = committed if ALWAYS_POSITION[0] else None   # otherwise only the first append of an attempt names it
         d.finished()
         return d
 '''
 
 
 class ResumableRows(Suite):
-    """a resumable H5Data task that appends batches of rows and commits its progress after each batch, killed once
-    after the rows of some batch reached the file and before their commit (also the very first batch), then asked
-    again by a new chain: the finished dataset holds exactly the rows of the batches, once, and a new process loads the
-    same.  Runtime check only."""
+    """a resumable H5Data task that appends batches of rows and commits its progress after each batch, killed any number
+    of times after the rows of some batch reached the file and before their commit (also the very first batch), each time
+    asked again by a new chain: the finished dataset holds exactly the rows of the batches, once, and a new process loads
+    the same.  Against Model/Resume.v (resume) - whose theorem C05_resumed_rows_exact says what the result must be."""
     name = 'resumable_rows'
-    model = ''
+    imports = 'Resume'
+    shard = 40
+    in_type = '(bool * list (list (Z * Z)) * list (option nat))'
+    out_type = 'list (Z * Z)'
+    prelude = '''
+Definition zz_eq_dec : forall a b : Z * Z, {a = b} + {a <> b}.
+Proof. decide equality; apply Z.eq_dec. Defined.
+Definition rows_model (c : bool * list (list (Z * Z)) * list (option nat)) : list (Z * Z) :=
+  let '(always, batches, plans) := c in snd (resume always batches 0 [] plans).
+'''
+    eq_dec = '(list_eq_dec zz_eq_dec)'
+    model = 'rows_model'
+
+    def corpus(self):
+        three = [[[0, 1], [0, 2]], [[1, 1], [1, 2]], [[2, 1], [2, 2]]]
+        return [dict(batches=three, plans=p, always=a) for p in ([], [0], [1], [2], [0, 0], [0, 1, 0], [2, 0]) for a in (True, False)] + \
+               [dict(batches=[[[5, 5]], [], [[6, 6], [7, 7], [8, 8]]], plans=[1, 0], always=False)]
 
     def gen(self, rng, tier):
-        return [dict(fail=b, explicit_len=e) for b in (None, 0, 1, 2) for e in (True, False)]
+        out = []
+        for _ in range(6 if tier == 'quick' else 150):
+            n = rng.choice([1, 2, 3, 4])
+            batches = [[[b, k] for k in range(rng.choice([1, 2, 3]))] for b in range(n)]
+            out.append(dict(batches=batches, plans=[rng.randrange(n) for _ in range(rng.choice([0, 1, 2, 3]))], always=rng.random() < 0.5))
+        return out
 
     def run_impl(self, case):
         tmp = tempfile.mkdtemp(prefix='tcverif-c05h-')
@@ -656,16 +673,20 @@ class ResumableRows(Suite):
                     return f['rows'][:].tolist()
 
             def scenario():
-                m.FAIL_AFTER_BATCH[0] = case['fail']
-                m.ALWAYS_POSITION[0] = case['explicit_len']
-                failed = False
-                try:
-                    task().value
-                except RuntimeError:
-                    failed = True
-                mid = bool(task().has_data)
+                m.BATCHES[0] = case['batches']
+                m.ALWAYS_POSITION[0] = case['always']
+                killed, early = [], []
+                for k in case['plans']:
+                    m.PLAN[0] = k
+                    try:
+                        task().value
+                        killed.append(False)
+                    except RuntimeError:
+                        killed.append(True)
+                    early.append(bool(task().has_data))
+                m.PLAN[0] = None
                 t = task()
-                return dict(failed=failed, has_after_failure=mid, rows=rows(t), has=bool(t.has_data),
+                return dict(killed=killed, early=early, rows=rows(t), has=bool(t.has_data),
                             reloaded=in_child(lambda: dict(rows=rows(task()))))
             return in_child(scenario)
         finally:
@@ -673,16 +694,21 @@ class ResumableRows(Suite):
             sys.modules.pop('tcv_dyn_c05h', None)
             shutil.rmtree(tmp, ignore_errors=True)
 
+    def encode(self, case, obs):
+        from ..coqlit import cZ, cbool, clist, cnat, cpair
+        rows = lambda rs: clist([cpair(cZ(int(r[0])), cZ(int(r[1]))) for r in rs])
+        i = cpair(cbool(case['always']), clist([rows(b) for b in case['batches']]),
+                  clist([f'(Some {cnat(k)})' for k in case['plans']] + ['None']))
+        return i, rows(obs.get('rows', [[-1, -1]]))
+
     def oracle(self, case, obs):
         if 'unexpected_exception' in obs:
             return f'unexpected exception {obs["unexpected_exception"]}: {obs["text"]}'
         if 'child_error' in obs:
             return f'{case}: {obs["child_error"]}'
-        want = [[float(b), float(k)] for b in range(3) for k in (1, 2)]
-        if obs['failed'] != (case['fail'] is not None):
-            return f'{case}: the harness did not kill the attempt as planned (failed={obs["failed"]})'
-        if obs['failed'] and obs['has_after_failure']:
-            return f'{case}: the killed attempt left a result behind (has_data True before the task was finished)'
+        want = [[float(x) for x in r] for b in case['batches'] for r in b]
+        if any(h and k for h, k in zip(obs['early'], obs['killed'])):
+            return f'{case}: a killed attempt left a result behind (has_data True before the task was finished)'
         if obs['rows'] != want or not obs['has']:
             return f'{case}: the finished dataset holds {obs["rows"]}; the batches are {want}'
         if obs['reloaded'].get('rows') != want:
@@ -690,7 +716,7 @@ class ResumableRows(Suite):
         return None
 
     def nontrivial(self, case, obs):
-        return True
+        return any(obs.get('killed', []))
 
     def key(self, case):
         return repr(case)
